@@ -597,7 +597,29 @@ func (in *Interp) intBinop(op token.Token, xb, yb *types.Basic, x, y *smt.Term) 
 			return c.ILt(y, x)
 		case token.GEQ:
 			return c.ILe(y, x)
-		case token.AND:
+		case token.AND, token.OR, token.XOR, token.AND_NOT:
+			if x.IsConst() && y.IsConst() {
+				// both concrete: two's complement image on the type's width
+				w := uint(intWidth(xb))
+				m := new(big.Int).Lsh(big.NewInt(1), w)
+				ux := new(big.Int).Mod(x.V, m)
+				uy := new(big.Int).Mod(y.V, m)
+				r := new(big.Int)
+				switch op {
+				case token.AND:
+					r.And(ux, uy)
+				case token.OR:
+					r.Or(ux, uy)
+				case token.XOR:
+					r.Xor(ux, uy)
+				case token.AND_NOT:
+					r.AndNot(ux, uy)
+				}
+				return in.intConst(xb, r)
+			}
+			if op != token.AND {
+				in.unsupported("int-mode bitwise " + op.String())
+			}
 			// mask with 2^k-1 constant
 			for _, p := range [][2]*smt.Term{{x, y}, {y, x}} {
 				if p[1].IsConst() && p[1].V.Sign() >= 0 {
@@ -613,8 +635,6 @@ func (in *Interp) intBinop(op token.Token, xb, yb *types.Basic, x, y *smt.Term) 
 				}
 			}
 			in.unsupported("int-mode bitwise AND")
-		case token.OR, token.XOR, token.AND_NOT:
-			in.unsupported("int-mode bitwise " + op.String())
 		}
 		panic("int binop " + op.String())
 	}
